@@ -156,7 +156,9 @@ class CorrelationFunction(DFunction, UnitsManaged):
                 #
                 # loop over parameter sets
                 #
-                for prms in self.params:
+                for params, prms in zip(p2calc, self.params):
+                    
+                    ftype = prms["ftype"]
                     
 #                    try:
 #                        ftype = params["ftype"]
